@@ -145,10 +145,22 @@ def feature_spec(draw, name, kind, blocks, dev_mode, dev_blocks, quant_pools=Non
     if kind == "ordinal" and n_mod > 2 and draw(st.integers(0, 2)) == 0:
         never = {draw(st.integers(0, n_mod - 1))}
 
+    # exact ties by construction: modality j copies the weights of modality i in every target level, so
+    # both get the same frequency and the same target rate (ties in rates, mirror ties in the measure)
+    twins = []
+    if kind != "continuous" and n_mod >= 3 and draw(st.integers(0, 2)) == 0:
+        for _ in range(draw(st.integers(1, 2))):
+            i, j = draw(st.integers(0, n_mod - 1)), draw(st.integers(0, n_mod - 1))
+            if i != j:
+                twins.append((i, j))
+    spec["twins"] = twins
+
     def table(blocks_):
         rows = []
         for size in blocks_:
             ws = draw(st.lists(st.sampled_from(wpool), min_size=n_mod, max_size=n_mod))
+            for i, j in twins:
+                ws[j] = ws[i]
             ws = [0 if i in never else w for i, w in enumerate(ws)]
             if spike >= 0:
                 ws[spike] = ws[spike] * 10 + 10
